@@ -21,7 +21,8 @@ RULE = (
 )
 RULE += (
     " Keys need 1-3 requests in a row, and the keys of some elements (last, first, a random subset) answer at "
-    "once: the number of flushes must equal the number of rounds."
+    "once: the number of flushes must equal the number of rounds. The key / predicate is called exactly once "
+    "per element (call counter)."
 )
 ASSUMPTIONS = ["key/predicate twins are pure, so the builtin's result is well defined"]
 UNIT_TIMEOUT = {"quick": 200, "thorough": 2400}
